@@ -69,7 +69,7 @@ class C18(Monitor):
     def classify(self, f, pre, s, trk):
         mine = s.snap['mine']
         if f.length > mine[C.S_MAX_FRAME_SIZE]:
-            if f.bad is not None and f.bad[0] == 'proto':
+            if (f.bad is not None and f.bad[0] == 'proto') or 'proto' in C.all_problems(f):
                 return None, None       # two violations at once: either code
             return C.FRAME_SIZE_ERROR, 'frame longer than MAX_FRAME_SIZE'
         if len(C.all_problems(f)) > 1:
